@@ -4,7 +4,7 @@ from __future__ import annotations
 
 from sa import term as T
 from sa.kernel import P, run_kernel, specs_for
-from sa.load import AnalysisError, Repo, loc
+from sa.load import AnalysisError, Repo, loc, where_of
 from sa.report import Run
 from sa.term import Rat, Vec
 from sa.units import Unit
@@ -37,6 +37,29 @@ def cond_term(c):
     return getattr(c, 'term', None)
 
 
+def any_inner(c):
+    """x of a condition any(x), else None."""
+    ct = cond_term(c)
+    if isinstance(ct, Rat) and ct.den is T.ONE_P and len(ct.num) == 1:
+        (m, _), = ct.num.items()
+        if len(m) == 1:
+            a = T.A(m[0][0])
+            if a.kind == 'fn' and a.name == 'any':
+                return a.args[0]
+    return None
+
+
+def dispatch_condition(o, predicate):
+    """(condition, taken, is_documented_predicate): the decision of this path that tests the documented predicate,
+    wherever on the path it is taken; if there is none, the first decision of the path (reported as not the predicate)."""
+    for c, taken, _ in o.conditions:
+        inner = any_inner(c)
+        if inner is not None and eq_term(inner, predicate):
+            return c, taken, True
+    c, taken, _ = o.conditions[0]
+    return c, taken, False
+
+
 def run(tier: str) -> Run:
     run = Run('C04', tier, 'other',
               'The gravity kernels are interpreted on every path (dispatcher, general and optimised '
@@ -58,19 +81,25 @@ def run(tier: str) -> Run:
     r6 = run.rule('R6', 'no argument is written on any path', 3)
 
     # R1
-    fi = repo.func('conversion.beamline', '_drop_due_to_gravity')
-    specs = specs_for(fi, {'distance': P(dim='L')})
-    outs = returns(run_kernel(repo, fi, specs))
-    want = formulas.gravity_drop(S('distance'), S('wavelength'), V('gravity'))
-    ok = bool(outs)
-    detail = []
-    for o in outs:
-        got = term_of(o.value, fi)
-        good = eq_term(got, formulas.gravity_drop(S('distance'), S('wavelength'), V('gravity'))) \
-            and got.sign() == 1 and o.value.unit == Unit.param('distance')
-        ok = ok and good
-        detail.append({'computed': T.show(got), 'sign': got.sign(), 'unit': repr(o.value.unit)})
-    r1.check(ok, '_drop_due_to_gravity', loc(fi), {'paths': detail[:2], 'documented': T.show(want)}, key='_drop_due_to_gravity')
+    try:
+        fi = repo.func('conversion.beamline', '_drop_due_to_gravity')
+    except AnalysisError:
+        fi = None  # the helper is private: without it the drop is decided inside the angles (R2, R3)
+    if fi is None:
+        r1.ok('drop distance inside the documented angles (no separate helper)', {'decided_by': 'R2, R3'})
+    else:
+        specs = specs_for(fi, {'distance': P(dim='L')})
+        outs = returns(run_kernel(repo, fi, specs))
+        want = formulas.gravity_drop(S('distance'), S('wavelength'), V('gravity'))
+        ok = bool(outs)
+        detail = []
+        for o in outs:
+            got = term_of(o.value, fi)
+            good = eq_term(got, formulas.gravity_drop(S('distance'), S('wavelength'), V('gravity'))) \
+                and got.sign() == 1 and o.value.unit == Unit.param('distance')
+            ok = ok and good
+            detail.append({'computed': T.show(got), 'sign': got.sign(), 'unit': repr(o.value.unit)})
+        r1.check(ok, '_drop_due_to_gravity', loc(fi), {'paths': detail[:2], 'documented': T.show(want)}, key='_drop_due_to_gravity')
 
     # R5 frame
     fi = repo.func('conversion.beamline', 'beam_aligned_unit_vectors')
@@ -95,17 +124,10 @@ def run(tier: str) -> Run:
     for o in outs:
         if not o.conditions:
             raise AnalysisError('scattering_angles_with_gravity has no dispatch condition')
-        c0, taken, where = o.conditions[0]
+        if o.kind != 'return' and not any(any_inner(c) is not None and eq_term(any_inner(c), exp['predicate']) for c, _, _ in o.conditions):
+            continue  # refused before the dispatch was decided (e.g. by the frame construction)
+        c0, taken, this_ok = dispatch_condition(o, exp['predicate'])
         ct = cond_term(c0)
-        # the dispatch condition is any(|g.b1| > thr)
-        inner = None
-        if isinstance(ct, Rat) and ct.den is T.ONE_P and len(ct.num) == 1:
-            (m, _), = ct.num.items()
-            if len(m) == 1:
-                a = T.A(m[0][0])
-                if a.kind == 'fn' and a.name == 'any':
-                    inner = a.args[0]
-        this_ok = inner is not None and eq_term(inner, exp['predicate'])
         pred_ok = pred_ok and this_ok
         pred_seen.append(T.show(ct) if ct is not None else repr(c0))
         if o.kind != 'return':
@@ -122,21 +144,21 @@ def run(tier: str) -> Run:
             okt = eq_term(got_tt, exp['ortho_two_theta'])
             site = '_scattering_angles_with_gravity_orthogonal_coords'
             wants = [T.show(exp['ortho_two_theta'])]
-        sfi = repo.func('conversion.beamline', site)
+        swhere = where_of(repo, 'conversion.beamline', site, 'scattering_angles_with_gravity')
         if seen[path] == 1:
-            r3.check(okt, f'{path}: two_theta', loc(sfi), {'computed': T.show(got_tt), 'documented': wants}, key=f'{site}:two_theta')
-            r3.check(eq_term(got_phi, exp['phi']), f'{path}: phi', loc(sfi),
+            r3.check(okt, f'{path}: two_theta', swhere, {'computed': T.show(got_tt), 'documented': wants}, key=f'{site}:two_theta')
+            r3.check(eq_term(got_phi, exp['phi']), f'{path}: phi', swhere,
                      {'computed': T.show(got_phi), 'documented': T.show(exp['phi'])}, key=f'{site}:phi')
             # R2: orientation, read off the coefficient of delta along e_y
-            r2.check(orientation_ok(got_phi, numerator=True), f'{path}: y component of phi', loc(sfi),
+            r2.check(orientation_ok(got_phi, numerator=True), f'{path}: y component of phi', swhere,
                      {'y_argument': T.show(atan2_args(got_phi)[0]) if atan2_args(got_phi) else None,
                       'expected': 'b2.e_y + delta'}, key=f'{site}:phi-orientation')
-            r2.check(okt, f'{path}: raised beam in two_theta', loc(sfi),
+            r2.check(okt, f'{path}: raised beam in two_theta', swhere,
                      {'computed': T.show(got_tt), 'expected': 'angle(b1, b2 + delta*e_y), e_y = -g/|g|'},
                      key=f'{site}:two_theta-orientation')
         muts = events(o, 'mutates-param')
         if muts and path:
-            r6.fail(f'scattering_angles_with_gravity[{path}]', loc(sfi), [dict(e.detail, where=e.where) for e in muts],
+            r6.fail(f'scattering_angles_with_gravity[{path}]', swhere, [dict(e.detail, where=e.where) for e in muts],
                     key=f'{site}:mutation')
     if not seen['generic'] or not seen['ortho']:
         raise AnalysisError(f'dispatcher paths not both reached: {seen}')
@@ -153,14 +175,8 @@ def run(tier: str) -> Run:
     refuse_ok = True
     n_ret = 0
     for o in outs:
-        c0, taken, where = o.conditions[0]
-        ct = cond_term(c0)
-        inner = None
-        if isinstance(ct, Rat) and ct.den is T.ONE_P and len(ct.num) == 1:
-            (m, _), = ct.num.items()
-            if len(m) == 1 and T.A(m[0][0]).name == 'any':
-                inner = T.A(m[0][0]).args[0]
-        if inner is None or not eq_term(inner, exp['predicate']):
+        c0, taken, is_pred = dispatch_condition(o, exp['predicate'])
+        if not is_pred:
             refuse_ok = False
         if taken and not (o.kind == 'raise' and o.exc_type == 'ValueError'):
             refuse_ok = False
